@@ -11,7 +11,8 @@ THEOREMS = [
     "C07.repo_order", "C07.repo_order_independent", "C07.cycle_rejected", "C07.repo_order_total",
     "C07.included_first_partial", "C07.bumps_recorded", "C07.parent_version_in_from",
     "C07.included_only_first_partial", "C07.parent_builds_nearest", "C07.included_first_reported_partial",
-    "C07.bump_build_reported_partial",
+    "C07.bump_build_reported_partial", "C07.reported_bump", "C07.skipped_version",
+    "C07.included_first_spec_partial", "C07.included_first_exists_partial", "C07.included_first_git_partial",
 ]
 TEXT = "BUG-9"
 NAMES = ["app", "core", "lib", "mid", "util", "zeta"]        # repository id = position (sorted() order of the names)
@@ -704,7 +705,21 @@ LEVEL_TEXT = ("Repository ordering is fully proved on the model the driver runs 
               "path-name stack): the result is a permutation with every component before its owners (repo_order), it depends "
               "only on the set of repositories (repo_order_independent), ValueError is raised exactly for cyclic dependency "
               "graphs incl. self-dependencies (cycle_rejected) and nothing else can happen (repo_order_total). For included_at "
-              "and bumps the kernel-checked theorems are partial but hold for all inputs: the registration loop records a "
+              "and bumps: for one component release line the clause is proved in git terms (included_first_git_partial): a "
+              "reported parent build registers a reported component build exactly when the build's commit is a git ancestor "
+              "of the component commit whose build tag the parent build pins, and of no component commit pinned by an "
+              "eligible parent commit properly below (hypotheses = the quantifier: eligible parent commits pin tags of "
+              "commits of that component branch with a reported build at or below them, pins never go back along ancestry, "
+              "component build numbers unique). It rests on: the component's bn_map sends a tag to the reported build at or "
+              "nearest below the tagged commit and containment in the component's report graph is git ancestry "
+              "(Lemmas/GhistBnAll.version_contains_iff). Parent side, at specification "
+              "level and for every parent history (forks, merges): under the quantifier's hypotheses for a branch (every "
+              "eligible commit pins a component version known to bn_map; the pinned version never decreases along git "
+              "ancestry, read as containment) a reported build registers a component build exactly when the version pinned "
+              "in its commit contains it and the version pinned in no eligible commit (tagged or head, new in the branch, "
+              "reported or not) properly below it does (included_first_spec_partial), such a first build is always a "
+              "reported build (included_first_exists_partial, skipped_version), the parent builds recorded in a build are the "
+              "nearest builds of the branch below it (parent_builds_nearest). Model level, all inputs: the registration loop records a "
               "component build at a parent build exactly when the build's new pinned version contains it and none of the "
               "versions contained in the build's parent builds does, for every shape of the component's build graph "
               "(included_first_partial, after the repair 88b742a); the stored bumps are the ones computed from the commit's pins, "
@@ -718,9 +733,11 @@ LEVEL_NOTE = ("Found and repaired while building this check: get_rbuilds_in_bump
               "pre-fix tree is caught with a concrete history). Quantifier reading agreed with the coordinator: 'the pinned "
               "version never decreases along a path' = the newly pinned component build contains the previously pinned one; "
               "scenarios with incomparable consecutive pins (tag 'pin-crosses-parallel-builds') are compared with the model but "
-              "not judged. Missing for the full included_first / included_only_first / bump_build_reported theorems: that the "
-              "parent builds found by _find_new_rcommits_in_build are the nearest reported builds in git ancestry and that "
-              "bn_map sends a version to the latest reported build it contains. Trusted: Lean kernel, translator, adapter, mock "
+              "not judged. Missing for the full included_first / included_only_first / bump_build_reported theorems (why they keep "
+              "the _partial suffix): pins into several component release lines (the code links component builds inside one "
+              "branch only, which the statement does not spell out) and parent commits whose pinned version contains no "
+              "reported component build; there is no totality theorem for multi-repository analyses (C06.report_total covers "
+              "single repositories and plugs that do not raise). Trusted: Lean kernel, translator, adapter, mock "
               "git, sampled correspondence (2-3 repositories, linear and DAG-shaped components and parents, 1-2 component release "
               "lines, commits with two build tags, both supply orders; dependency graphs over <=6 repositories). Not modelled: "
               "commit times (inside the cut-off windows by the quantifier), repository names (ranks in sorted() order).")
